@@ -9,6 +9,7 @@ MODULES = [
     "contracts.c_tz",
     "contracts.c_tzcache",
     "contracts.c_strict",
+    "contracts.c_fresh",
 ]
 
 STANDINS = [
@@ -23,6 +24,7 @@ LEVELS = {
     "C12": "proof",
     "C19": "proof",
     "C10": "proof",
+    "C04": "proof",
 }
 
 _COMMON = [
